@@ -9,8 +9,10 @@ Vecs(n, Vs) == {v \in [1..n -> Vs] : \A k \in 1..n : v[k] \in {"R", "F"} => \A q
 AllA(n) == [k \in 1..n |-> "A"]
 SeqsBetween(S, lo, hi) == UNION {[1..n -> S] : n \in lo..hi}
 Sub(s) == [input |-> "i" \in s, dialog |-> "d" \in s, retrieval |-> "r" \in s, output |-> "o" \in s, set |-> TRUE]
-TurnRec(k, iv, ov, op, sp) == [kind |-> k, inv |-> iv, outv |-> ov, opts |-> op, sup |-> sp]
-CfgRecR(ni, no, d, x, sh, nr) == [ver |-> 1, nin |-> ni, nout |-> no, dialog |-> d, exc |-> x, shape |-> sh, nret |-> nr]
+TurnRecC(k, iv, ov, op, sp, cd) == [kind |-> k, inv |-> iv, outv |-> ov, opts |-> op, sup |-> sp, cold |-> cd]
+TurnRec(k, iv, ov, op, sp) == TurnRecC(k, iv, ov, op, sp, FALSE)
+CfgRecP(ni, no, d, x, sh, nr, pt) == [ver |-> 1, nin |-> ni, nout |-> no, dialog |-> d, exc |-> x, shape |-> sh, nret |-> nr, pass |-> pt]
+CfgRecR(ni, no, d, x, sh, nr) == CfgRecP(ni, no, d, x, sh, nr, FALSE)
 CfgRec(ni, no, d, x, sh) == CfgRecR(ni, no, d, x, sh, 0)
 Kinds(d) == IF d THEN {"pre", "llm", "free"} ELSE {"llm"}
 Kinds2(d) == IF d THEN {"pre", "llm"} ELSE {"llm"}
@@ -26,6 +28,15 @@ Scripts ==
                            {TurnRec(k, iv, AllA(no), NONE, FALSE) : k \in Kinds(d), iv \in Vecs(ni, {"A", "R", "W"})},
                            1, MaxTurns)
                 : ni \in 0..MaxIn, no \in {0, 1}, d \in BOOLEAN, x \in BOOLEAN}
+         \cup  \* passthrough mode (the LLM is prompted with the raw messages), no dialog rails
+         UNION {ScriptsFor(CfgRecP(ni, no, FALSE, FALSE, "tri", 0, TRUE),
+                           {TurnRec("llm", iv, AllA(no), NONE, FALSE) : iv \in Vecs(ni, {"A", "R", "W"})}, 1, MaxTurns)
+                : ni \in 1..MaxIn, no \in {0, 1}}
+         \cup  \* cold turns: the history is rebuilt from the messages (no cached events: restart / another worker)
+         UNION {{[cfg |-> CfgRec(ni, 0, d, FALSE, "tri"), turns |-> <<t1, t2>>] :
+                   t1 \in {TurnRec(k, AllA(ni), <<>>, NONE, FALSE) : k \in Kinds(d)},
+                   t2 \in {TurnRecC(k, iv, <<>>, NONE, FALSE, TRUE) : k \in Kinds(d), iv \in Vecs(ni, {"A", "R", "W"})}}
+                : ni \in 1..MaxIn, d \in BOOLEAN}
     [] Family = "c02" ->
          UNION {ScriptsFor(CfgRec(ni, no, d, x, "tri"),
                            {TurnRec(k, AllA(ni), ov, NONE, FALSE) : k \in Kinds2(d), ov \in Vecs(no, {"A", "R", "W"})},
@@ -45,7 +56,7 @@ Scripts ==
                 : ni \in 1..MaxIn, no \in 1..MaxOut}
 
 (* deterministic partition of the universe over parallel TLC processes *)
-Hash(s) == (s.cfg.nin * 7 + s.cfg.nout * 3 + (IF s.cfg.dialog THEN 1 ELSE 0) + (IF s.cfg.exc THEN 2 ELSE 0) + Len(s.turns)
+Hash(s) == ((IF s.cfg.pass THEN 3 ELSE 0) + s.cfg.nin * 7 + s.cfg.nout * 3 + (IF s.cfg.dialog THEN 1 ELSE 0) + (IF s.cfg.exc THEN 2 ELSE 0) + Len(s.turns)
             + (IF s.cfg.shape = "inv" THEN 5 ELSE 0)) % Parts
 
 Init == /\ script \in {s \in Scripts : Hash(s) = Part}
